@@ -38,22 +38,36 @@ RCof(ir) == LET bits == [j \in 0..6 |-> rc(j + 7 * ir)]
             IN Acc(0, <<>>)
 RC == [ir \in 0..23 |-> RCof(ir)]
 
+\* The step mappings, written lane-vector-wise: Sel(A, idx) is the state whose
+\* lane i is A[idx[i]]; XorV / AndV / NotV / RotLV act on all lanes at once.
+Sel(A, idx) == Tup([i \in 1..Len(idx) |-> A[idx[i]]])
+Idx(f(_, _)) == Tup([i \in 1..25 |-> f((i - 1) % 5, (i - 1) \div 5)])      \* index vector from (x, y)
+At(x, y) == 5 * (y % 5) + (x % 5) + 1
+\* theta: C[x] = A[x,0] ^ .. ^ A[x,4];  D[x] = C[x-1] ^ rot(C[x+1], 1);  A[x,y] ^= D[x]
+ThetaD(x, y) == x + 1
+ThetaIdx == Idx(ThetaD)
+ColIdx(k) == Tup([x \in 1..5 |-> At(x - 1, k)])
+Col0 == ColIdx(0)
+Col1 == ColIdx(1)
+Col2 == ColIdx(2)
+Col3 == ColIdx(3)
+Col4 == ColIdx(4)
+Ones5 == <<1, 1, 1, 1, 1>>
 Theta(A) ==
-    LET C == Tup([x \in 1..5 |-> LET xx == x - 1 IN BitXor(BitXor(BitXor(Lane(A, xx, 0), Lane(A, xx, 1)), BitXor(Lane(A, xx, 2), Lane(A, xx, 3))), Lane(A, xx, 4))])
-        D == Tup([x \in 1..5 |-> BitXor(C[((x + 3) % 5) + 1], RotL(C[(x % 5) + 1], 1, 64))])
-    IN Tup([i \in 1..25 |-> BitXor(A[i], D[((i - 1) % 5) + 1])])
-RhoPi(A) ==   \* B[y, 2x+3y] = rot(A[x,y], r[x,y])
-    LET src(i) == LET X == (i - 1) % 5
-                      Y == (i - 1) \div 5
-                      \* (X,Y) = (y, 2x+3y)  =>  y = X, x = (X + 3Y) mod 5
-                      x == (X + 3 * Y) % 5
-                      y == X
-                  IN 5 * y + x + 1
-    IN Tup([i \in 1..25 |-> RotL(A[src(i)], RhoOff[src(i)], 64)])
-Chi(B) == Tup([i \in 1..25 |->
-             LET x == (i - 1) % 5
-                 y == (i - 1) \div 5
-             IN BitXor(B[i], BitAnd(NotW(Lane(B, x + 1, y), 64), Lane(B, x + 2, y)))])
+    LET C == XorV(XorV(XorV(Sel(A, ColIdx(0)), Sel(A, ColIdx(1))), XorV(Sel(A, ColIdx(2)), Sel(A, ColIdx(3)))),
+                  Sel(A, ColIdx(4)))
+        D == XorV(Sel(C, <<5, 1, 2, 3, 4>>), RotLV(Sel(C, <<2, 3, 4, 5, 1>>), Ones5, 64))
+    IN XorV(A, Sel(D, ThetaIdx))
+\* rho and pi: B[y, 2x+3y] = rot(A[x,y], r[x,y]); as a gather: B[X,Y] = rot(A[x,y]) with x = X+3Y, y = X
+PiSrc(X, Y) == At(X + 3 * Y, X)
+PiIdx == Idx(PiSrc)
+RhoPi(A) == Sel(RotLV(A, RhoOff, 64), PiIdx)
+\* chi: A[x,y] = B[x,y] ^ (~B[x+1,y] & B[x+2,y])
+Chi1(x, y) == At(x + 1, y)
+Chi2(x, y) == At(x + 2, y)
+Chi1Idx == Idx(Chi1)
+Chi2Idx == Idx(Chi2)
+Chi(B) == XorV(B, AndV(NotV(Sel(B, Chi1Idx), 64), Sel(B, Chi2Idx)))
 Iota(A, ir) == [A EXCEPT ![1] = BitXor(A[1], RC[ir])]
 Round(A, ir) == Iota(Chi(RhoPi(Theta(A))), ir)
 RECURSIVE Perm(_, _)
